@@ -398,7 +398,9 @@ def doCtcg (n m p fuel fuel2 : ℕ) (imp : Bool) (parts : List String) : String 
           let finS := Cobyqa.Tcg.rescale R P.delta fin.step
           if Cobyqa.Ctcg.cqval P finS > Cobyqa.Ctcg.cqval P r.1.step then r.1.step else finS
         else r.1.step
-      (if second then "ok1 " else "ok0 ") ++ " ".intercalate ((listFin n).map fun i => showRat (st i))
+      -- `ok1d`: the second phase was entered with a null space of dimension <= 1, where the direction of rotation is 0 / 0
+      let degenerate := second && decide (n ≤ O.nAct r.1.freeL r.1.freeU r.1.freeUb + 1)
+      (if degenerate then "ok1d " else if second then "ok1 " else "ok0 ") ++ " ".intercalate ((listFin n).map fun i => showRat (st i))
     | _, _, _, _, _, _, _, _ => "bad-op"
   | _ => "bad-op"
 
@@ -495,7 +497,9 @@ def doNtcg (n m p fuel fuel2 : ℕ) (imp : Bool) (parts : List String) : String 
           let finS := Cobyqa.Tcg.rescale R P.delta fin.step
           if Cobyqa.Ntcg.violation P finS > Cobyqa.Ntcg.violation P h.step then h.step else finS
         else r.1.step
-      (if r.2 then "ok1 " else "ok0 ") ++ " ".intercalate ((listFin n).map fun i => showRat (st i))
+      -- `ok1d`: the second phase starts with at most one free variable (the direction of rotation is 0 / 0)
+      let degenerate := imp && r.2 && decide ((Finset.univ.filter fun i => (Cobyqa.Ntcg.handover P r.1).free i = true).card ≤ 1)
+      (if degenerate then "ok1d " else if r.2 then "ok1 " else "ok0 ") ++ " ".intercalate ((listFin n).map fun i => showRat (st i))
     | _, _, _, _, _, _, _ => "bad-op"
   | _ => "bad-op"
 
@@ -520,7 +524,10 @@ def doTcg2 (n fuel fuel2 : ℕ) (imp : Bool) (parts : List String) : String :=
           nsOf := fun t => (17 * t + 3).floor.toNat }
       -- `tcgFullFast` = (`tcgFull`, `boundary_reached`): Props/C15ImproveFast.lean
       let r := Cobyqa.Tcg.tcgFullFast P Q R fuel fuel2 imp
-      (if r.2 then "ok1 " else "ok0 ") ++ " ".intercalate ((listFin n).map fun i => showRat (r.1 i))
+      -- `ok1d`: the second phase starts with at most one free variable (the direction of rotation is 0 / 0)
+      let fin1 := (Cobyqa.Tcg.loopB P Q fuel (Cobyqa.Tcg.init P)).1
+      let degenerate := r.2 && decide ((Finset.univ.filter fun i => fin1.free i = true).card ≤ 1)
+      (if degenerate then "ok1d " else if r.2 then "ok1 " else "ok0 ") ++ " ".intercalate ((listFin n).map fun i => showRat (r.1 i))
     | _, _, _, _, _ => "bad-op"
   | _ => "bad-op"
 
